@@ -165,7 +165,9 @@ func (g *InterProceduralFlowGraph) BuildGraph() {
 	// Writes the summaries to file if the option is set
 	if summariesFile != nil {
 		// Read-only operation on summaries
+		writerDone := make(chan struct{})
 		go func() {
+			defer close(writerDone)
 			for _, summary := range g.Summaries {
 				if summary == nil {
 					continue
@@ -175,6 +177,9 @@ func (g *InterProceduralFlowGraph) BuildGraph() {
 				_, _ = summariesFile.WriteString("\n")
 			}
 		}()
+		// Wait for the writer before linking: STEP 3 inserts into g.Summaries and updates the summaries being
+		// printed, and the file is closed when this function returns.
+		<-writerDone
 	}
 
 	// STEP 3: link all the summaries together
